@@ -39,7 +39,7 @@ def determinism(props, n):
         idx = list(range(0, len(cases), step))[:n]
         d1 = [mod.execute(cases[i])["digest"] for i in idx]
         d2 = [mod.execute(cases[i])["digest"] for i in idx]
-        env = dict(os.environ, VERIF_HASHSEED="4242", VERIF_DIGEST_IDX=",".join(map(str, idx)))
+        env = dict(os.environ, PYTHONHASHSEED="4242", VERIF_DIGEST_IDX=",".join(map(str, idx)))
         out = subprocess.run([os.path.join(core.VERIF, "check"), "selftest", "--digests", p], env=env,
                              capture_output=True, text=True, timeout=3600)
         try:
@@ -49,7 +49,7 @@ def determinism(props, n):
             bad += 1
             continue
         ok = d1 == d2 == d3
-        print("determinism %s: %d cases x (2 in-process + 1 fresh interpreter, other hash seed): %s" % (
+        print("determinism %s: %d cases x (2 in-process + 1 fresh interpreter started under another outer PYTHONHASHSEED; the launcher pins it): %s" % (
             p, len(idx), "identical" if ok else "DIVERGED"))
         if not ok:
             bad += 1
